@@ -99,7 +99,54 @@ func ruleDEDUP1(c *Ctx) {
 		} else if !lenPos.IsValid() || lenPos > appPos {
 			probs = append(probs, "the new index is not taken as len(pool) before the constant is appended")
 		}
-		c.check(len(probs) == 0, key, cc, "maps the old index on every path; new index = len(pool) before append", strings.Join(probs, "; "))
+		// DEDUP.2: the key under which a constant is merged is its whole identity:
+		// the constant itself (pointer identity), its single Value field, or (for
+		// module maps) the module name with the unnamed case excluded
+		keysOK := true
+		var badKey string
+		ast.Inspect(cc, func(n ast.Node) bool {
+			ix, ok := n.(*ast.IndexExpr)
+			if !ok {
+				return true
+			}
+			mt, ok := p.TypesInfo.Types[ix.X].Type.Underlying().(*types.Map)
+			if !ok {
+				return true
+			}
+			if _, isInt := mt.Elem().Underlying().(*types.Basic); !isInt {
+				return true
+			}
+			k := w.Src(ix.Index)
+			if k == curIdx {
+				return true // the old→new index map
+			}
+			sv := ""
+			if o := p.TypesInfo.Implicits[cc]; o != nil {
+				sv = o.Name()
+			}
+			switch {
+			case k == sv: // pointer identity
+			case k == sv+".Value":
+				// the struct must have Value as its only semantic field
+				if st, ok := derefStruct(p.TypesInfo.Implicits[cc].Type()); ok {
+					for i := 0; i < st.NumFields(); i++ {
+						f := st.Field(i)
+						if f.Embedded() || f.Name() == "Value" || f.Name() == "runeStr" {
+							continue
+						}
+						keysOK, badKey = false, k+" (type has another field "+f.Name()+")"
+					}
+				}
+			case name == "ImmutableMap" && k == "modName":
+			default:
+				keysOK, badKey = false, k
+			}
+			return true
+		})
+		if !keysOK {
+			probs = append(probs, "constants are merged under key "+badKey+", which is not the constant's whole identity: two constants that differ elsewhere (e.g. in their source map) would be collapsed into one")
+		}
+		c.check(len(probs) == 0, key, cc, "maps the old index on every path; new index = len(pool) before append; merge key is the constant's identity", strings.Join(probs, "; "))
 	}
 	// arms ⊇ static types passed to addConstant
 	for _, es := range w.addConstantTypes() {
